@@ -64,6 +64,7 @@ class TxMonitor {
 
   void run(const std::vector<BusByte>& log, std::vector<ReqInfo>& reqs, const MonConfig& cfg) {
     bool hostSilentUntilSyn = false;
+    bool hostIsGenerator = false;
     bool lostSinceOwn = false;
     int synsSinceLost = 0;
     int64_t lastActivity = log.empty() ? 0 : log[0].t;
@@ -90,8 +91,15 @@ class TxMonitor {
         // AUTO-SYN: only with SYN generation enabled and after silence of at least the generation interval
         autoSyns++;
         int64_t silence = (e.t - SYM) - (i > 0 ? log[i - 1].t : 0);
+        // generation interval: 10 ms * master number (>= 1) + 51 ms until the host has become the generator, 40 ms afterwards
+        int64_t need = hostIsGenerator ? 40 * MS : 61 * MS;
         if (!cfg.generateSyn) add("c03-autosyn-not-enabled", ctx(log, i));
-        else if (silence < 40 * MS - 2 * MS) add("c03-autosyn-too-early", "silence " + std::to_string(silence / MS) + " ms before " + ctx(log, i));
+        else if (silence < need - 2 * MS) add("c03-autosyn-too-early", "silence " + std::to_string(silence / MS) + " ms (needs " + std::to_string(need / MS) + ") before " + ctx(log, i));
+        if (e.b == 0xAA) {        // the SYN made it onto the bus: it counts like any other SYN
+          hostIsGenerator = true;
+          hostSilentUntilSyn = false;
+          if (lostSinceOwn) synsSinceLost++;
+        }
         i++;
         continue;
       }
@@ -128,7 +136,8 @@ class TxMonitor {
   /** follows an exchange of the host starting at its echoed arbitration byte; returns the index after it */
   size_t followOwn(const std::vector<BusByte>& log, size_t start, std::vector<ReqInfo>& reqs, bool* silent) {
     const size_t n = log.size();
-    auto isHost = [&](size_t k) { return log[k].origin == 'H' || log[k].origin == 'X'; };
+    // a SYN the host sends after a silent gap is an AUTO-SYN (judged by the main loop), never part of an exchange
+    auto isHost = [&](size_t k) { return (log[k].origin == 'H' || log[k].origin == 'X') && !(log[k].hostWrote == 0xAA && log[k].gapBefore); };
     uint8_t qq = log[start].b;
     // candidates: pending requests with this source whose wire image is compatible with what follows
     ReqInfo* rq = nullptr;
@@ -194,7 +203,8 @@ class TxMonitor {
 
   size_t followResponse(const std::vector<BusByte>& log, size_t i, ReqInfo* rq, bool* silent) {
     const size_t n = log.size();
-    auto isHost = [&](size_t k) { return log[k].origin == 'H' || log[k].origin == 'X'; };
+    // a SYN the host sends after a silent gap is an AUTO-SYN (judged by the main loop), never part of an exchange
+    auto isHost = [&](size_t k) { return (log[k].origin == 'H' || log[k].origin == 'X') && !(log[k].hostWrote == 0xAA && log[k].gapBefore); };
     for (int attempt = 0; attempt < 2; attempt++) {
       // response: NN data CRC (escaped) from the peer
       std::vector<uint8_t> un; uint8_t crc = 0; bool esc = false; bool complete = false, crcOk = false;
@@ -235,7 +245,8 @@ class TxMonitor {
   }
 
   size_t expectSyn(const std::vector<BusByte>& log, size_t i, ReqInfo* rq, bool valid, const std::vector<uint8_t>& slave) {
-    auto isHost = [&](size_t k) { return log[k].origin == 'H' || log[k].origin == 'X'; };
+    // a SYN the host sends after a silent gap is an AUTO-SYN (judged by the main loop), never part of an exchange
+    auto isHost = [&](size_t k) { return (log[k].origin == 'H' || log[k].origin == 'X') && !(log[k].hostWrote == 0xAA && log[k].gapBefore); };
     if (i < log.size()) {
       if (!isHost(i) || log[i].hostWrote != 0xAA) add("c02-no-final-syn", ctx(log, i) + " request " + vf::hex(rq->master));
       else i++;
@@ -269,6 +280,7 @@ class TxMonitor {
         return i;
       }
       const AnswerDef* a = cfg.answer ? refAnswer(cfg, m) : nullptr;
+      if (i < n && isHost(i) && log[i].hostWrote == 0xAA && log[i].gapBefore) return i;   // an AUTO-SYN of the host after silence, not an acknowledge
       if (i >= n || !isHost(i)) {             // somebody else (or nobody) acknowledged
         if (a && crcOk && i < n) add("c15-no-answer", "registered answer for " + vf::hex(m) + " but the host stays silent at " + ctx(log, i));
         return i;
